@@ -6,6 +6,8 @@ import (
 	"go/constant"
 	"go/token"
 	"go/types"
+
+	"golang.org/x/tools/go/ssa"
 	"sort"
 	"strings"
 
@@ -572,110 +574,158 @@ func c14Wrap(c *core.Ctx, r *core.Reporter) {
 }
 
 func c14NoEdit(c *core.Ctx, r *core.Reporter) {
-	p, fd := c.FindDecl("language/visitor", "Visit")
-	if fd == nil {
-		r.Unknown("Visit", token.NoPos, "not found")
+	visit := c.Func("language/visitor", "Visit")
+	editT := c.Named("language/visitor", "edit")
+	if visit == nil || editT == nil {
+		r.Unknown("Visit", token.NoPos, "Visit or its edit record type not found")
 		return
 	}
-	info := p.TypesInfo
-	// isEdited := isLeaving && len(edits) != 0
-	var isEdited types.Object
-	defOK := false
-	ast.Inspect(fd.Body, func(n ast.Node) bool {
-		as, ok := n.(*ast.AssignStmt)
-		if !ok || len(as.Lhs) != 1 || len(as.Rhs) != 1 {
-			return true
+	isEdits := func(t types.Type) bool { // []*edit / []edit
+		sl, ok := t.Underlying().(*types.Slice)
+		if !ok {
+			return false
 		}
-		id, ok := as.Lhs[0].(*ast.Ident)
-		if !ok || id.Name != "isEdited" {
-			return true
+		return core.NamedOf(sl.Elem()) == editT
+	}
+	// pending(v): v is true only if edits are pending: `len(edits) != 0`, `len(edits) > 0`, or an `&&` with such a term
+	var pending func(v ssa.Value, depth int) bool
+	pending = func(v ssa.Value, depth int) bool {
+		if depth > 5 {
+			return false
 		}
-		isEdited = core.ObjOf(info, id)
-		if be, ok := ast.Unparen(as.Rhs[0]).(*ast.BinaryExpr); ok && be.Op == token.LAND {
-			s := core.ExprString(be)
-			defOK = strings.Contains(s, "len(edits) != 0") || strings.Contains(s, "len(edits) > 0")
+		switch x := v.(type) {
+		case *ssa.BinOp:
+			isLen := func(a ssa.Value) bool {
+				call, ok := a.(*ssa.Call)
+				if !ok {
+					return false
+				}
+				b, ok := call.Call.Value.(*ssa.Builtin)
+				return ok && b.Name() == "len" && len(call.Call.Args) == 1 && isEdits(call.Call.Args[0].Type())
+			}
+			zero := func(a ssa.Value) bool { n, ok := core.ConstInt(a); return ok && n == 0 }
+			switch x.Op {
+			case token.NEQ, token.GTR:
+				return isLen(x.X) && zero(x.Y)
+			case token.LSS:
+				return zero(x.X) && isLen(x.Y)
+			}
+		case *ssa.Phi:
+			// short-circuit `a && b`: every edge is the constant false or a pending term
+			some := false
+			for _, e := range x.Edges {
+				if k, ok := e.(*ssa.Const); ok && k.Value != nil && k.Value.String() == "false" {
+					continue
+				}
+				if pending(e, depth+1) {
+					some = true
+					continue
+				}
+				// `isLeaving && len(edits) != 0` evaluates the first operand in a predecessor: the edge for "first operand
+				// false" is the constant false; any other non-pending edge breaks the implication
+				return false
+			}
+			return some
 		}
-		return true
+		return false
+	}
+	var gates []*ssa.If
+	core.Instrs(visit, func(in ssa.Instruction) {
+		if iff, ok := in.(*ssa.If); ok && pending(iff.Cond, 0) {
+			gates = append(gates, iff)
+		}
 	})
-	if isEdited == nil {
-		r.Bad("Visit/isEdited", fd.Pos(), "Visit has no isEdited flag any more: node writes are not conditional on pending edits")
+	if len(gates) == 0 {
+		r.Bad("Visit/isEdited", visit.Pos(), "Visit has no branch that requires pending edits (len(edits) != 0) any more: node writes are not conditional on an edit having been requested")
 		return
 	}
-	r.Check(defOK, "Visit/isEdited", fd.Pos(), "isEdited requires pending edits (len(edits) != 0) while leaving",
-		"isEdited no longer requires that edits were recorded: the write arm runs for traversals that requested no edit")
-	// writers must be lexically inside `if isEdited { … }`
-	writers := map[string]bool{"updateNodeField": true, "removeNodeByIndex": true, "convertMap": true}
+	r.OK("Visit/isEdited", gates[0].Pos(), "the write arm requires pending edits (len(edits) != 0)")
+	underGate := func(in ssa.Instruction) bool {
+		at := c.Anchor(visit, in) // through helpers extracted from Visit
+		if at == nil {
+			return false
+		}
+		for _, g := range gates {
+			if g.Block().Succs[0].Dominates(at.Block()) {
+				return true
+			}
+		}
+		return false
+	}
+	// node-writing operations: the three writer helpers and element stores into a []ast.Node
+	writers := map[*ssa.Function]bool{}
+	for _, n := range []string{"updateNodeField", "removeNodeByIndex", "convertMap"} {
+		if f := c.Func("language/visitor", n); f != nil {
+			writers[f] = true
+		}
+	}
+	nodeT := c.Named("language/ast", "Node")
 	bad := ""
 	nw := 0
-	core.WalkStack(fd.Body, func(n ast.Node, stack []ast.Node) bool {
-		isWrite := false
+	c.RegionInstrs(visit, func(in ssa.Instruction) {
 		what := ""
-		switch x := n.(type) {
-		case *ast.CallExpr:
-			if f := core.CalleeObj(info, x); f != nil && writers[core.N(f)] {
-				isWrite, what = true, core.N(f)
+		switch x := in.(type) {
+		case ssa.CallInstruction:
+			if cal := x.Common().StaticCallee(); cal != nil && writers[cal] {
+				what = core.N(cal)
 			}
-		case *ast.AssignStmt:
-			for _, l := range x.Lhs {
-				if ie, ok := l.(*ast.IndexExpr); ok {
-					if id, ok := ie.X.(*ast.Ident); ok && id.Name == "nodeSlice" {
-						isWrite, what = true, "nodeSlice[…] ="
-					}
+		case *ssa.Store:
+			if ia, ok := x.Addr.(*ssa.IndexAddr); ok {
+				if sl, ok := ia.X.Type().Underlying().(*types.Slice); ok && nodeT != nil && core.NamedOf(sl.Elem()) == nodeT {
+					what = "an element store into a node slice"
 				}
 			}
 		}
-		if !isWrite {
-			return true
+		if what == "" {
+			return
 		}
 		nw++
-		guarded := false
-		for _, s := range stack {
-			if iff, ok := s.(*ast.IfStmt); ok && core.ObjOf(info, iff.Cond) == isEdited && iff.Body.Pos() <= n.Pos() && n.End() <= iff.Body.End() {
-				guarded = true
-			}
+		if !underGate(in) && bad == "" {
+			bad = what + " at " + c.Pos(in.Pos())
 		}
-		if !guarded {
-			bad = what
-		}
-		return true
 	})
-	r.Check(bad == "" && nw >= 3, "Visit/writes-under-isEdited", fd.Pos(),
-		fmt.Sprintf("all %d node-writing operations are inside the isEdited arm", nw),
-		"Visit performs "+bad+" outside the isEdited arm: a traversal whose callbacks request no edits can modify the tree")
-	// edits appended only for ActionUpdate or while propagating (isEdited)
+	r.Check(bad == "" && nw >= 3, "Visit/writes-under-isEdited", visit.Pos(),
+		fmt.Sprintf("all %d node-writing operations are inside the arm that requires pending edits", nw),
+		"Visit performs "+bad+" outside the arm that requires pending edits: a traversal whose callbacks request no edits can modify the tree")
+	// edits appended only for ActionUpdate or while propagating pending edits
 	okAppend, na := true, 0
-	core.WalkStack(fd.Body, func(n ast.Node, stack []ast.Node) bool {
-		as, ok := n.(*ast.AssignStmt)
-		if !ok || len(as.Lhs) != 1 || len(as.Rhs) != 1 {
-			return true
+	c.RegionInstrs(visit, func(in ssa.Instruction) {
+		call, ok := in.(*ssa.Call)
+		if !ok {
+			return
 		}
-		id, ok := as.Lhs[0].(*ast.Ident)
-		call, ok2 := as.Rhs[0].(*ast.CallExpr)
-		if !ok || !ok2 || id.Name != "edits" || !core.IsBuiltinCall(info, call, "append") {
-			return true
+		b, ok := call.Call.Value.(*ssa.Builtin)
+		if !ok || b.Name() != "append" || len(call.Call.Args) == 0 || !isEdits(call.Call.Args[0].Type()) {
+			return
 		}
 		na++
+		if underGate(in) {
+			return
+		}
+		at := c.Anchor(visit, in)
 		allowed := false
-		for _, s := range stack {
-			switch x := s.(type) {
-			case *ast.CaseClause:
-				for _, e := range x.List {
-					if constString(info, e) == "UPDATE" {
+		if at != nil {
+			core.Instrs(visit, func(x ssa.Instruction) {
+				iff, ok := x.(*ssa.If)
+				if !ok {
+					return
+				}
+				bo, ok := iff.Cond.(*ssa.BinOp)
+				if !ok || bo.Op != token.EQL {
+					return
+				}
+				for _, side := range []ssa.Value{bo.X, bo.Y} {
+					if s, ok := core.ConstString(side); ok && s == "UPDATE" && iff.Block().Succs[0].Dominates(at.Block()) {
 						allowed = true
 					}
 				}
-			case *ast.IfStmt:
-				if strings.Contains(core.ExprString(x.Cond), "isEdited") && x.Body.Pos() <= n.Pos() && n.End() <= x.Body.End() {
-					allowed = true
-				}
-			}
+			})
 		}
 		if !allowed {
 			okAppend = false
 		}
-		return true
 	})
-	r.Check(okAppend && na >= 2, "Visit/edits-only-on-update", fd.Pos(),
+	r.Check(okAppend && na >= 2, "Visit/edits-only-on-update", visit.Pos(),
 		"edits are recorded only for ActionUpdate results or while propagating pending edits",
 		"an edit is recorded although no callback returned ActionUpdate")
 	// updateNodeField writes through reflection only there
